@@ -115,60 +115,6 @@ func runHandshake(p pathDesc, seed uint64) (client *ClientDnsConnection, user *u
 	}
 }
 
-// exchange pushes data both ways over the negotiated tunnel (the client's own poll goroutine is running).
-func exchange(client *ClientDnsConnection, user *userConnection, up, down []byte, bound time.Duration) string {
-	errc := make(chan string, 4)
-	go func() {
-		if _, err := client.Write(up); err != nil {
-			errc <- "client write: " + err.Error()
-			return
-		}
-		errc <- ""
-	}()
-	go func() {
-		if _, err := user.Write(down); err != nil {
-			errc <- "server write: " + err.Error()
-			return
-		}
-		errc <- ""
-	}()
-	read := func(c net.Conn, n int, who string) {
-		got := make([]byte, 0, n)
-		buf := make([]byte, 16384)
-		for len(got) < n {
-			k, err := c.Read(buf)
-			got = append(got, buf[:k]...)
-			if err != nil {
-				errc <- fmt.Sprintf("%s read stopped after %d of %d bytes: %v", who, len(got), n, err)
-				return
-			}
-		}
-		want := up
-		if who == "client" {
-			want = down
-		}
-		if d := vlib.FirstDiff(got, want); d != -1 {
-			errc <- fmt.Sprintf("%s received different bytes (first difference at %d of %d)", who, d, n)
-			return
-		}
-		errc <- ""
-	}
-	go read(user, len(up), "server")
-	go read(client, len(down), "client")
-	timeout := time.After(bound)
-	for i := 0; i < 4; i++ {
-		select {
-		case e := <-errc:
-			if e != "" {
-				return e
-			}
-		case <-timeout:
-			return fmt.Sprintf("transfer of %d bytes up / %d bytes down not complete after %v", len(up), len(down), bound)
-		}
-	}
-	return ""
-}
-
 func drawPath(rt *rapid.T) pathDesc {
 	p := pathDesc{}
 	p.Domain = []string{"example.org", "t.co", "tunnel.some-company.example.com", strings.Repeat("d", 50) + ".net"}[rapid.IntRange(0, 3).Draw(rt, "domain")]
